@@ -56,6 +56,14 @@ func debugRun(sess *bridge.Session, src string, env *bridge.Env, reuseRecord boo
 		// the same record serves a first evaluation; DebugCompile clears it
 		// before every run, so the second run must look like a first one
 		sess.ExecFunc(func() *val.Val { return cl(rt) })
+	} else if len(src)%3 == 1 {
+		// the compiled debug closure has already run once with ANOTHER record
+		// (and other values are not needed: the same environment content)
+		other := debug.NewRecord()
+		venv0 := env.ValEnv()
+		venv0.Dgb = other
+		rt0 := venv0.Inherit(sess.VEnv)
+		sess.ExecFunc(func() *val.Val { return cl(rt0) })
 	}
 	res = sess.ExecFunc(func() *val.Val { return cl(rt) })
 	entries = rcd.VerifEntries()
@@ -419,6 +427,9 @@ func sameSourceDebug(c *run.Ctx) {
 	type O3 struct {
 		F []float64 `yae:"f"`
 	}
+	type O4 struct {
+		F interface{} `yae:"f"`
+	}
 	variants := []map[string]interface{}{
 		{"xs": []float64{1, 2}, "m": map[string]float64{"a": 1}, "o": O1{3}, "b": true},
 		{"xs": []string{"p", "q"}, "m": map[string]string{"a": "x"}, "o": O2{"y"}, "b": true},
@@ -426,6 +437,11 @@ func sameSourceDebug(c *run.Ctx) {
 		{"xs": [][]float64{{1}, {2, 3}}, "m": map[string]bool{"a": true}, "o": O1{5}, "b": false},
 		{"xs": []map[string]float64{{"k": 1}, {}}, "m": map[string]map[string]string{"a": {"k": "v"}}, "o": O2{""}, "b": true},
 		{"xs": []float64{7, 8}, "m": map[string]float64{"a": 9}, "o": O1{10}, "b": false},
+		// identical Go types, other dynamic types inside
+		{"xs": []interface{}{1.0, 2.0}, "m": map[string]interface{}{"a": 1.0}, "o": O4{3.0}, "b": true},
+		{"xs": []interface{}{"p", "p"}, "m": map[string]interface{}{"a": "x"}, "o": O4{"y"}, "b": true},
+		{"xs": []interface{}{[]float64{1}, []float64{2, 3}}, "m": map[string]interface{}{"a": []string{"s"}}, "o": O4{[]interface{}{true}}, "b": false},
+		{"xs": []interface{}{4.0, 5.0}, "m": map[string]interface{}{"a": 6.0}, "o": O4{7.0}, "b": false},
 	}
 	sources := []string{
 		"len(xs)", "xs[0]", "xs[1] == xs[0]", "string(xs)", "if(b, xs[0], xs[1])", "xs == xs", "[xs, xs][1]",
@@ -491,8 +507,8 @@ func sameSourceDebug(c *run.Ctx) {
 func init() {
 	run.Register(&run.Spec{
 		ID: "C19", Run: runC19, Level: "exploration",
-		Rule: "generated single-line programs (80% sugared; ASCII, CJK and emoji identifiers and strings; values that render on several lines; 8% failing sub-terms; unevaluated lazy branches) with and without harness functions, the laziness families and the field-permutation families, run through closure.DebugCompile with a fresh record or with a record that already served one evaluation (hook: entries) and, for built-in-only programs over host data, through yae.Debug; " +
-			"monitor: result / failure equals normal evaluation (reference evaluator, vm, closure); recorded entries == the reference evaluator's log of (value, column) for every identifier, call, member and subscript actually evaluated, in evaluation order, columns from the harness's own rendering (identifier start; operator, '?' or '(' of a call; '['; '.'); report: never fails, first line is the source, every recorded value appears at its column (multi-line values on consecutive lines); yae.Debug report == report of the same record; 18 sources debugged repeatedly in one process through yae.Debug over 6 host environments that differ only in nested types (every rotation): each call agrees with yae.Eval of the same source over the same data. distinct = distinct source",
+		Rule: "generated single-line programs (80% sugared; ASCII, CJK and emoji identifiers and strings; values that render on several lines; 8% failing sub-terms; unevaluated lazy branches) with and without harness functions, the laziness families and the field-permutation families, run through closure.DebugCompile with a fresh record, with a record that already served one evaluation, or after the compiled closure served another record (hook: entries) and, for built-in-only programs over host data, through yae.Debug; " +
+			"monitor: result / failure equals normal evaluation (reference evaluator, vm, closure); recorded entries == the reference evaluator's log of (value, column) for every identifier, call, member and subscript actually evaluated, in evaluation order, columns from the harness's own rendering (identifier start; operator, '?' or '(' of a call; '['; '.'); report: never fails, first line is the source, every recorded value appears at its column (multi-line values on consecutive lines); yae.Debug report == report of the same record; 18 sources debugged repeatedly in one process through yae.Debug over 10 host environments that differ only in nested types (typed containers, and interface-typed containers of identical Go type) (every rotation): each call agrees with yae.Eval of the same source over the same data. distinct = distinct source",
 		Assume:    []string{"lazy host functions that force one thunk twice are excluded (a second record of one term has no column of its own)"},
 		MinEvents: 1000, EventKey: "debug_runs",
 	})
